@@ -57,6 +57,11 @@ CHECKS = {
          "All reachable states of (handshake indices, counters, pool of genuine messages, delivered data) under every schedule of emit / deliver-to-either-side / drop / send are enumerated to closure on real Sessions; on every transition: no panic, the handshake index never decreases, IsReady never reverts, Handshake() is idempotent and byte-stable; from every reached state the fair suffix (each side's current handshake message delivered once more in sequence) must make both sides ready and the very next data message each way must be delivered.",
          "At most two data messages per direction; genuine messages only.",
          "5/C06", "seqmc"),
+ "C07": ("model_checking",
+         "exhaustive enumeration of adversarial prefix scripts over a real Channel pair followed by a deterministic fair suffix in virtual time; deterministic steady-state grid",
+         "Prefixes: every script up to depth 7 (quick) / 9 (thorough) of start-Send-on-either-side, deliver / drop / duplicate any in-flight packet (reordering), fire the earliest timer and (one scenario) restart the peer, with two RNG seeds for the simultaneous-initiation tie-break; then the network becomes reliable (in-order prompt delivery, timers only when idle) and every pending Send must return within 8 x HandshakeBackoff of virtual time. Steady state: three (rekey, keep-alive, reject) configurations x traffic period x one/both directions x phase offsets run for 3 x RejectAfter: no Send may fail or outlive a traffic period, every payload must arrive and a side that keeps receiving must not emit more InitHellos than the rekey interval explains.",
+         "Handlers run atomically (deterministic scheduling); p2pkeswarm-level convergence is not yet included. Known findings: two peer-restart histories converge only after the 120/180 s timers or never.",
+         "5/C07", "gosched"),
  "C08": ("fault_enumeration",
          "exhaustive enumeration of crafted packet sequences (through the real entry path, deterministic schedule on the instrumented code) and of boundary-complete input grids for every parser/handler",
          "Sequences of <=2 (quick) / <=3 (thorough) packets over per-layer header-field alphabets (every field over {0,1,boundary-1,boundary,boundary+1,max}, bodies shorter/equal/longer than declared, packets sharing an id so that later ones contradict earlier ones) are injected by a raw peer into fragswarm, mbapp (fast path on/off), the five multiplexers (tells and asks) and p2pkeswarm; a panic in any library goroutine, more than 64 MiB allocated, a killed worker process or a valid message no longer being delivered afterwards is a violation. Grids: all demux functions, six address parsers, PeerID.UnmarshalText, x509.ParsePublicKey (every single-byte mutation/truncation of a valid key), the QUIC frame reader, DHT handlers, and p2pke Sessions/Channels fed every genuine message with every byte zeroed/incremented/truncated at every handshake stage.",
